@@ -58,7 +58,10 @@ Definition GOV : addr := 100%N.
     account it is a BLOCKED address of the bank: MsgSend, MsgWithdrawRequest and MsgTransferRequest
     refuse it as receiver (BlockedAddr); the governance routes (WithdrawEscrow proposal,
     SupplyIncrease proposal with a target) use SendCoins directly and do not.  Coins of the denom
-    may therefore sit in it (also from genesis); mints and burns pass THROUGH it and leave them alone. *)
+    may therefore sit in it (also from genesis); mints and burns pass THROUGH it and leave them alone.
+    ASSUMED: the module account exists (it is created by the first mint of the module or at genesis).
+    If coins are sent to its address before that, the bank creates a plain account there and every
+    later mint / burn of the marker module panics - an environment the model does not describe. *)
 Definition MODULE : addr := 99%N.
 Definition blocked (a : addr) : bool := N.eqb a MODULE || N.eqb a GOV.
 
